@@ -455,7 +455,7 @@ pub fn gen_driver(prop: &str, rng: &mut Rng, sh: &mut Shards, out: &str, thoroug
                             0 | 1 => DataForm::Num(imm(rng)),
                             2 => DataForm::Zero(*rng.pick(&[0u32, 1, 2, 15, 16, 255, 256])),
                             3 => DataForm::Fill(imm(rng), *rng.pick(&[0u32, 1, 2, 3, 17, 100])),
-                            4 | 5 => DataForm::Str(rng.pick(&["", "a", "hello world", "0123456789ABCDEF", "x  y", "~!@#$%^&*()_+{}|<>?"]).to_string()),
+                            4 | 5 => DataForm::Str(rng.pick(&["", "a", "hello world", "0123456789ABCDEF", "x  y", "~!@#$%^&*()_+{}|<>?", "\"hi\"", "\"", "a\"b", "\"\"", "it's no comment"]).to_string()),
                             6 if !big_done && (over || rng.chance(1, 3)) => {
                                 big_done = true;
                                 // large zero arrays: up to (and, for `over`, beyond) the 64 KiB of a segment
